@@ -221,3 +221,31 @@ CHECKS["C17"] = {
         "nil and empty slices / maps are identified (YAML cannot tell them apart); map keys are lower-case",
     ],
 }
+
+CHECKS["C18"] = {
+    "level": "exploration",
+    "jobs": [
+        J("expressions", "c18", "TestExpressions", 3000, 80000, 8),
+        J("validatevar", "c18", "TestValidateVar", 3000, 80000, 8),
+        J("validatestruct", "c18", "TestValidateStruct", 1000, 20000, 4),
+    ],
+    "assumptions": [
+        "github.com/expr-lang/expr and go-playground/validator are trusted third parties (the reference evaluates the substituted text with the former; the constraint reimplementation is self-checked against the latter on every case)",
+        "cases whose reference evaluation errors or yields NaN/Inf/empty string are skipped; divisors are non-zero literals",
+        "constraint lists avoid oneof with several values (a space separates validate items in the tag grammar)",
+    ],
+}
+
+CHECKS["C20"] = {
+    "level": "exploration",
+    "jobs": [
+        J("races", "c20", "TestRaces", 400, 6000, 6, race=True),
+        J("losfn-owned", "c20", "TestLoadOrStoreFnOwnedSchedule", 1500, 30000, 4, race=True),
+        J("map-free", "c20", "TestMapFreeSchedule", 800, 20000, 4, race=True),
+        J("sets-free", "c20", "TestSetsFreeSchedule", 600, 10000, 2, race=True),
+    ],
+    "assumptions": [
+        "the Go scheduler is not owned: races are searched by the race detector's happens-before analysis over generated scenarios under GOMAXPROCS 2/4/16 (exploration of schedules, not coverage); only the LoadOrStoreFn callback yield point is owned",
+        "timestamps of the recorded histories come from one atomic counter (consistent with real-time order); Range is checked only for visiting each key at most once",
+    ],
+}
